@@ -563,6 +563,10 @@ func init() {
 	}
 
 	// ---------------- os ----------------
+	I["strconv.FormatBool"] = func(c *icall) ([]*State, bool) {
+		c.set(c.w.fmtValue(c.s, c.args[0], 'v'))
+		return nil, false
+	}
 	I["os.Getenv"] = func(c *icall) ([]*State, bool) { c.set(litStr("")); return nil, false }
 
 	// ---------------- net/http pure helpers ----------------
